@@ -8,7 +8,10 @@ import (
 	"context"
 	"fmt"
 	"math/rand"
+	"runtime"
 	"sort"
+	"strconv"
+	"strings"
 	"sync"
 	"sync/atomic"
 	"time"
@@ -26,6 +29,7 @@ type dinst struct {
 	hears    func(src uint16) bool // input filter (nil = hears everybody)
 	speaksTo func(dst uint16) bool // output routing (nil = everybody)
 	dupTo    []uint16              // every transmission is additionally sent to these members (same transport identity)
+	gid      uint64                // goroutine that runs Synchronize
 	// results
 	mu     sync.Mutex
 	lists  [][]uint16 // continuation invocations
@@ -184,6 +188,15 @@ func (n *dnet) start(ctx context.Context, wg *sync.WaitGroup, in *dinst, topic [
 	wg.Add(1)
 	go func() {
 		defer wg.Done()
+		g := goroutineID()
+		discHoldMu.Lock()
+		discByGID[g] = in
+		discHoldMu.Unlock()
+		defer func() {
+			discHoldMu.Lock()
+			delete(discByGID, g)
+			discHoldMu.Unlock()
+		}()
 		err := in.m.Synchronize(ctx, func(l []uint16) {
 			in.mu.Lock()
 			in.lists = append(in.lists, append([]uint16{}, l...))
@@ -297,4 +310,65 @@ func honestCompletions(n *dnet) int {
 		}
 	}
 	return c
+}
+
+// ---- holds at the verif points of disc.Member.Synchronize ----
+
+var (
+	discHoldMu   sync.Mutex
+	discByGID    = map[uint64]*dinst{}
+	discHolds    = map[*dinst]*discHold{}
+	discHookOnce sync.Once
+)
+
+type discHold struct {
+	point   string
+	arrived chan struct{} // closed when the instance reached the point
+	release chan struct{} // closed by the harness
+	hit     bool
+}
+
+func goroutineID() uint64 {
+	var buf [64]byte
+	n := runtime.Stack(buf[:], false)
+	f := strings.Fields(strings.TrimPrefix(string(buf[:n]), "goroutine "))
+	id, _ := strconv.ParseUint(f[0], 10, 64)
+	return id
+}
+
+// holdAt arranges that the instance parks the first time its Synchronize reaches the verif point.
+func holdAt(in *dinst, point string) *discHold {
+	discHookOnce.Do(func() {
+		disc.SetVerifHook(func(p string) {
+			g := goroutineID()
+			discHoldMu.Lock()
+			in := discByGID[g]
+			var h *discHold
+			if in != nil {
+				h = discHolds[in]
+				if h != nil && (h.point != p || h.hit) {
+					h = nil
+				}
+				if h != nil {
+					h.hit = true
+				}
+			}
+			discHoldMu.Unlock()
+			if h != nil {
+				close(h.arrived)
+				<-h.release
+			}
+		})
+	})
+	h := &discHold{point: point, arrived: make(chan struct{}), release: make(chan struct{})}
+	discHoldMu.Lock()
+	discHolds[in] = h
+	discHoldMu.Unlock()
+	return h
+}
+
+func dropHold(in *dinst) {
+	discHoldMu.Lock()
+	delete(discHolds, in)
+	discHoldMu.Unlock()
 }
